@@ -74,8 +74,8 @@ class SourceSet:
             except SyntaxError as e:  # pragma: no cover
                 raise AnchorMissing(f"{r} does not parse: {e}") from e
             if not os.environ.get("VERIF_NO_INLINE"):
-                from .normalise import builder_loops, group_aliases, inline_helpers
-                t = builder_loops(group_aliases(inline_helpers(t)))
+                from .normalise import builder_loops, format_calls, group_aliases, inline_helpers
+                t = format_calls(builder_loops(group_aliases(inline_helpers(t))))
             self._ast[r] = t
         return self._ast[r]
 
